@@ -455,5 +455,6 @@ def run(args):
     for h in ('plain', 'cbs', 'err', 'record', 'alias', 'out', 'typedef-fn'):
         chk.require(chk.monitor_hits[h] > 0, 'oracle part %s judged nothing' % h)
     chk.require(len(harness) <= max(2, n // 50), 'harness failures: %r' % harness[:2])
+    core.require_standin_validated(chk)
     chk.assumptions = ['stand-in C parser; stub GLib/GObject/Gio GIRs', 'default transfer of returned records/objects is not documented and not asserted']
     return chk.finish()
